@@ -121,3 +121,11 @@ package asp
 //@   opt inline=off
 //@   opt precall=off
 //@   callsite reflect.DeepEqual containers_are_compared_structurally [C18]: !listlike(arg_x) && !dictlike(arg_x)
+//@ func asDict
+//@   modifies nothing
+//@   ensures exactly_the_dictlike [C18]: result1 == dictlike(obj)
+//@ func pyEqual
+//@   opt nopanic=off
+//@   opt precall=off
+//@   callsite reflect.DeepEqual containers_are_compared_structurally [C18]: !listlike(arg_x) && !dictlike(arg_x)
+//@   callsite pyEqual items_pairwise [C18]: called("asList") || called("asDict")
